@@ -55,3 +55,9 @@ claim("C17",
       "Two genuine deviations from the one-sided rule are known findings matched by cause class (refinement skipped for <=10 breakpoints and result is the plain RDP subsequence; refinement ran and excess < eps/2).",
       "bounded-exhaustive polyline enumeration with geometric oracles",
       "DESIGN.md section 4 C17")
+
+claim("C19",
+      "Explicit-state BFS: (a) every sequence of <=3 (quick) / <=4 (thorough) assignments from a 14-event menu on three initial streams (hot, cold, latent), all invariants of the property evaluated in every reached state; (b) every sequence of <=4 / <=5 operations from a 17-event menu (add, add with clashing key, add_many with and without keys, remove present/absent, replace, three sort keys, concatenation, member attribute assignment) on a pool of three streams with clashing names, in lock step with a list reference, observing len / iteration / index / get_index / contains after every step. States are rebuilt by replaying the history on fresh objects and de-duplicated on a canonical key that includes the hidden dirty flag and cached order.",
+      "Reference = Python list of (key, object) with the documented rename rule; ties in the sort key may appear in any order.",
+      "explicit-state BFS over operation histories on real objects with a lock-step reference model",
+      "DESIGN.md section 4 C19")
